@@ -542,6 +542,17 @@ extend('C13',
        'ROUND 3 — the pipeline generator also emits URLs with "!" in the path (hashbang routes) and phone numbers with the '
        '"00" exit code or an "x" extension (several patterns match a prefix of these: the longest match must win).')
 
+extend('C10',
+       'ROUND 3 (d) — the rest of BaseDatePeriodParser and the whole DateContext (Model/Periods2; Props/C10Periods2, 25 '
+       'theorems): for "past/next/in N months|years" the set of references on which the (begin,end,P<N>M|Y) triple is '
+       'consistent is characterised EXACTLY (the day of the month survives the datedelta shift; a 29 February never meets '
+       'a year without one); "from A to B <year>" puts both ends in the stated year with a consistent day triple; '
+       '__set_date_with_context and sync_year never produce an invalid date (a 29 February under a non-leap stated year '
+       'becomes the 0001-01-01 marker, shown as not resolved); the ORDER of the sixteen sub-parsers is a theorem (first '
+       'success wins, an earlier exception escapes) and the correspondence runs every real sub-parser on its own so that a '
+       'reordering is caught; the tree\'s decade parser is proved never to succeed, with the repaired computation specified. '
+       'One recorded finding: week-of-month ends under a year context.')
+
 ALL_IDS = ['C%02d' % i for i in range(1, 21)]
 PENDING = 'check not built yet in this revision (work in progress; see DESIGN.md §8 build order)'
 
